@@ -11,12 +11,15 @@ package main
 
 import (
 	"fmt"
+	"strconv"
 	"strings"
 	"unicode/utf8"
 )
 
-// skips one value; false when a string, symbol or type name in it is not valid UTF-8 (such a
-// value is outside the property's domain) or the tokens are not a value
+// skips one value; false when the value is outside the round-trip domain of the property
+// (JsonData.inRtDom: strings and type names valid UTF-8, ints within int64, finite floats,
+// hashes under pairwise distinct symbol keys other than Atype / zKeyOrder, no bare symbol, char,
+// uint64 or list) or the tokens are not a value
 func histTokValid(toks []string) ([]string, bool) {
 	if len(toks) == 0 {
 		return nil, false
@@ -33,12 +36,14 @@ func histTokValid(toks []string) ([]string, bool) {
 		if len(r) < 1 {
 			return nil, false
 		}
-		return r[1:], t == "i"
+		_, err := strconv.ParseInt(r[0], 10, 64)
+		return r[1:], t == "i" && err == nil
 	case "d", "e":
 		if len(r) < 3 {
 			return nil, false
 		}
-		return r[3:], true
+		bits, err := strconv.ParseUint(r[0], 16, 64)
+		return r[3:], err == nil && bits>>52&0x7ff != 0x7ff // finite
 	case "s", "b", "y":
 		if len(r) < 1 || !utf8ok(r[0]) {
 			return nil, false
@@ -60,11 +65,13 @@ func histTokValid(toks []string) ([]string, bool) {
 		}
 		r = r[1:]
 		if t == "h" {
+			seen := map[string]bool{encBytes([]byte("Atype")): true, encBytes([]byte("zKeyOrder")): true}
 			for i := 0; i < n; i++ {
-				// key: a symbol
-				if len(r) < 2 || r[0] != "y" || !utf8ok(r[1]) {
+				// key: a symbol, not a reserved name, not repeated
+				if len(r) < 2 || r[0] != "y" || !utf8ok(r[1]) || seen[r[1]] {
 					return nil, false
 				}
+				seen[r[1]] = true
 				var ok bool
 				if r, ok = histTokValid(r[2:]); !ok {
 					return nil, false
